@@ -403,11 +403,11 @@ pub proof fn lemma_erase0(k: Kind)
 }
 
 pub proof fn lemma_erase1(k: Kind, a: STerm)
-    ensures s_erase(STerm::Node(k, s1(a))) == STerm::Node(k, s1(s_erase(a)))
+    ensures s_erase(STerm::Node(k, s1(a))) == STerm::Node(k, s1(if k is Lambda { s_dummy() } else { s_erase(a) }))
 {
     reveal(s_erase);
     assert(s1(a)[0] == a);
-    assert(s_erase(STerm::Node(k, s1(a)))->Node_1 =~= s1(s_erase(a)));
+    assert(s_erase(STerm::Node(k, s1(a)))->Node_1 =~= s1(if k is Lambda { s_dummy() } else { s_erase(a) }));
 }
 
 pub proof fn lemma_erase2(k: Kind, a: STerm, b: STerm)
@@ -419,11 +419,11 @@ pub proof fn lemma_erase2(k: Kind, a: STerm, b: STerm)
 }
 
 pub proof fn lemma_erase3(k: Kind, a: STerm, b: STerm, c: STerm)
-    ensures s_erase(STerm::Node(k, s3(a, b, c))) == STerm::Node(k, s3(if k == Kind::Let { s_dummy() } else { s_erase(a) }, s_erase(b), s_erase(c)))
+    ensures s_erase(STerm::Node(k, s3(a, b, c))) == STerm::Node(k, s3(if k == Kind::Let || k is Lambda { s_dummy() } else { s_erase(a) }, s_erase(b), s_erase(c)))
 {
     reveal(s_erase);
     assert(s3(a, b, c)[0] == a && s3(a, b, c)[1] == b && s3(a, b, c)[2] == c);
-    assert(s_erase(STerm::Node(k, s3(a, b, c)))->Node_1 =~= s3(if k == Kind::Let { s_dummy() } else { s_erase(a) }, s_erase(b), s_erase(c)));
+    assert(s_erase(STerm::Node(k, s3(a, b, c)))->Node_1 =~= s3(if k == Kind::Let || k is Lambda { s_dummy() } else { s_erase(a) }, s_erase(b), s_erase(c)));
 }
 
 // Two nodes have the same erasure iff they have the same constructor, the same number of children and
@@ -546,19 +546,24 @@ pub proof fn lemma_conv_node3(k: Kind, a1: STerm, b1: STerm, c1: STerm, a2: STer
 }
 
 // ---- TRUSTED: the physical size bound used by the normaliser and the conversion check ------------------
-// Same nature as axiom_term_fits (eval_spec.rs), for a term that lives under a context of l variables: a
-// heap-allocated term without unresolved holes whose free variables are below l, and a context vector of
-// length l, have indices, binder depth, group sizes and l below 2^57 (every binder on a path and every
-// context entry is a distinct heap object of at least 16 bytes; the user address space of x86-64 holds fewer
-// than 2^43 of them).  What is PROVED at every use: the term is hole-free, closed at l and below 2^60.
+// Same nature as axiom_term_fits (eval_spec.rs), for a term that lives under a context of l variables and e
+// further binders (e = the size of a definition group being unfolded, below 2^56 by what was proved before): a
+// heap-allocated term without unresolved holes whose free variables are below l + e, and a context vector of
+// length l, have indices, binder depth, group sizes and l below 2^56 (every binder on a path and every context
+// entry is a distinct heap object of at least 16 bytes; the user address space of x86-64 holds fewer than 2^43
+// of them).  It is only ever applied to values that exist at run time (a parameter, a named local).  What is
+// PROVED at every use: the term has no unresolved hole, is closed at l + e and below 2^60.
+pub open spec fn HB() -> int { SB() / 2 }
+
 #[verifier::external_body]
-pub proof fn axiom_fits_under<'a>(t: Term<'a>, ctx: Vec<Option<(Rc<Term<'a>>, usize)>>)
+pub proof fn axiom_fits_under<'a>(t: &Term<'a>, ctx: &Vec<Option<(Rc<Term<'a>>, usize)>>, e: nat)
     requires
-        s_ok(view(t), 0, BOUND() as nat),
-        s_closed_at(view(t), ctx@.len()),
+        s_ok(view(*t), 0, BOUND() as nat),
+        s_closed_at(view(*t), ctx@.len() + e),
+        e < HB(),
     ensures
-        s_ok(view(t), 0, SB() as nat),
-        ctx@.len() + 1 < SB(),
+        s_ok(view(*t), 0, HB() as nat),
+        ctx@.len() < HB(),
 {
 }
 
@@ -569,4 +574,75 @@ pub open spec fn ctx_plain<'a>(ctx: Seq<Option<(Rc<Term<'a>>, usize)>>) -> bool 
 // what the normaliser returns is never a definition group (and, without unresolved holes, never a hole)
 pub open spec fn t_head_ok(t: Term) -> bool {
     !(t.variant is Let) && !(t.variant is Unifier)
+}
+
+// ---- weak-head normal forms of the reference relation (what normalize_weak_head must return: it may not stop
+// early) ---------------------------------------------------------------------------------------------------
+// values and variables; an application whose head is a whnf that is not a function; an arithmetic / comparison
+// node whose operands are whnf and not both literals (or a division of literals by zero); a negation of a whnf
+// that is no literal; a conditional whose condition is a whnf that is no truth value.  A definition group or a
+// hole is never one.
+#[verifier::opaque]
+pub open spec fn s_whnf(t: STerm) -> bool
+    decreases t
+{
+    match t {
+        STerm::Hole => false,
+        STerm::Var(_) => true,
+        STerm::Node(k, kids) =>
+            if s_value(t) { true }
+            else if is_binary(k) && kids.len() == 2 {
+                if k == Kind::App { s_whnf(kids[0]) && s_prim(k, kids[0], kids[1]) is None }
+                else { s_whnf(kids[0]) && s_whnf(kids[1]) && s_prim(k, kids[0], kids[1]) is None }
+            } else if k == Kind::Neg && kids.len() == 1 {
+                s_whnf(kids[0]) && lit_of(kids[0]) is None
+            } else if k == Kind::If && kids.len() == 3 {
+                s_whnf(kids[0]) && !(kids[0] is Node && (kids[0]->Node_0 == Kind::True || kids[0]->Node_0 == Kind::False))
+            } else { false },
+    }
+}
+
+pub proof fn lemma_whnf_value(t: STerm)
+    requires s_value(t)
+    ensures s_whnf(t)
+{
+    reveal(s_whnf);
+}
+
+pub proof fn lemma_whnf_var(i: nat)
+    ensures s_whnf(STerm::Var(i))
+{
+    reveal(s_whnf);
+}
+
+pub proof fn lemma_whnf_shape(t: STerm)
+    requires s_whnf(t)
+    ensures !(t is Hole), !(t is Node && t->Node_0 == Kind::Let)
+{
+    reveal(s_whnf);
+}
+
+pub proof fn lemma_whnf1(a: STerm)
+    ensures s_whnf(STerm::Node(Kind::Neg, s1(a))) == (s_whnf(a) && lit_of(a) is None)
+{
+    reveal(s_whnf);
+    assert(s1(a)[0] == a && s1(a).len() == 1);
+    assert(STerm::Node(Kind::Neg, s1(a))->Node_1 == s1(a));
+}
+
+pub proof fn lemma_whnf2(k: Kind, a: STerm, b: STerm)
+    requires is_binary(k)
+    ensures s_whnf(STerm::Node(k, s2(a, b))) == (s_whnf(a) && (k == Kind::App || s_whnf(b)) && s_prim(k, a, b) is None)
+{
+    reveal(s_whnf);
+    assert(s2(a, b)[0] == a && s2(a, b)[1] == b && s2(a, b).len() == 2);
+    assert(STerm::Node(k, s2(a, b))->Node_1 == s2(a, b));
+}
+
+pub proof fn lemma_whnf3(c: STerm, a: STerm, b: STerm)
+    ensures s_whnf(STerm::Node(Kind::If, s3(c, a, b))) == (s_whnf(c) && !(c is Node && (c->Node_0 == Kind::True || c->Node_0 == Kind::False)))
+{
+    reveal(s_whnf);
+    assert(s3(c, a, b)[0] == c && s3(c, a, b).len() == 3);
+    assert(STerm::Node(Kind::If, s3(c, a, b))->Node_1 == s3(c, a, b));
 }
